@@ -234,7 +234,7 @@ func init() {
 	register(&Check{
 		ID:    "C12",
 		Level: "model_checking",
-		Rule: "full products: all 7 884 single selectors; every GTFS route type 0-7, 11, 12 and five unknown values x plain fields; all 14 400 ordered pairs over a 120-selector sub-alphabet (plain {none,R1,R2,stop,agency} x 12 descriptor classes x own direction) in one alert and split over two alerts; thorough adds all 13 824 triples over 24 selectors and all pairs (120 x 7 884); all map rotations of the fall-back loop; " +
+		Rule: "full products: all 7 884 single selectors; every GTFS route type 0-7, 11, 12 and five unknown values x plain fields; all 14 400 ordered pairs over a 120-selector sub-alphabet (plain {none,R1,R2,stop,agency} x 12 descriptor classes x own direction) in one alert and split over two alerts; thorough adds all 1 728 000 triples over the 120, all 13 824 triples over 24 selectors (kept as a fast subset) and all pairs (120 x 7 884); all map rotations of the fall-back loop; " +
 			"non-trivial = distinct messages with at least one trip descriptor in a selector; oracle = reference normaliser + output invariants",
 		Assumptions: []string{"for descriptors with a route and only part of a start (or a schedule relationship) the route fall-back is neither required nor forbidden", "a route type outside the GTFS list informs nothing"},
 		Scenarios: func(tier string) []*Scenario {
@@ -259,7 +259,9 @@ func init() {
 				}},
 			}
 			if tier == "thorough" {
-				s = append(s, &Scenario{Name: "triples-over-24", Bound: -1, Run: func(c *Ctx) {
+				s = append(s, &Scenario{Name: "triples-over-120", Bound: -1, Run: func(c *Ctx) {
+					c12Check(c, [][]selSpec{{c12Sub120[c.Free("first", 120)], c12Sub120[c.Free("second", 120)], c12Sub120[c.Free("third", 120)]}})
+				}}, &Scenario{Name: "triples-over-24", Bound: -1, Run: func(c *Ctx) {
 					c12Check(c, [][]selSpec{{c12Sub24[c.Free("first", 24)], c12Sub24[c.Free("second", 24)], c12Sub24[c.Free("third", 24)]}})
 				}}, &Scenario{Name: "pairs-120-x-all", Bound: -1, Run: func(c *Ctx) {
 					a := c12Sub120[c.Free("first", 120)]
